@@ -16,6 +16,8 @@
 (* that started its next iteration HAS BEEN idle), do promises get the     *)
 (* outcome of the INSERT that carried them, what happens to them across    *)
 (* Stop, does Run return when and only when every worker left.             *)
+(* Connections never fail in the recorded runs (a refused connection makes *)
+(* the worker sleep a second; reconnects are the subject of Batcher.tla).  *)
 (* Several recorded runs are concatenated; a "Reset" line starts the next. *)
 (***************************************************************************)
 EXTENDS WriterLifecycle, Json, TLCExt
@@ -86,12 +88,7 @@ TAppend ==
     /\ Len(results'[Wk(Ev)]) = Ev.nres
     /\ Consume
 
-\* Request returned a promise already completed with "service stopped"
-TStopped ==
-    /\ Is("Stopped") /\ lpc[Lg(Ev)] = "stopped"
-    /\ Consume /\ UNCHANGED vars
-
-\* a promise was seen completed
+\* a promise was seen completed ("stopped": Request returned it already completed with "service stopped")
 TDone ==
     /\ Is("Done") /\ lpc[Lg(Ev)] = Ev.out
     /\ Consume /\ UNCHANGED vars
@@ -104,7 +101,6 @@ TOrphan ==
 
 \* ---- the worker goroutine
 TIter     == Is("Iter") /\ Wake(Wk(Ev)) /\ Consume
-TConnFail == Is("ConnFail") /\ ConnFail(Wk(Ev)) /\ Consume
 TSwap     == Is("Swap") /\ Len(results[Wk(Ev)]) = Ev.n /\ Swap(Wk(Ev)) /\ Consume
 \* client.Do entered: setState(INSERTING) is behind the worker; the block carries the rows of the swapped-out promises
 TDoCall ==
@@ -133,8 +129,8 @@ Silent ==
 
 TraceNext ==
     \/ TraceReset \/ TInit \/ TInitAgain \/ TRunCall \/ TRunAgain \/ TStopCall \/ TStopRet \/ TPlanFlush \/ TRunRet
-    \/ TRoute \/ TAppend \/ TStopped \/ TDone \/ TOrphan
-    \/ TIter \/ TConnFail \/ TSwap \/ TDoCall \/ TRelease
+    \/ TRoute \/ TAppend \/ TDone \/ TOrphan
+    \/ TIter \/ TSwap \/ TDoCall \/ TRelease
     \/ STimer \/ Silent
 
 TraceSpec == TraceInit /\ [][TraceNext]_tvars
